@@ -208,6 +208,34 @@ class DBFile:
         walk(root, 0)
         return nodes, entries
 
+    def graph(self, roots):
+        """Page graph of several b-trees with one global entry numbering.
+        Returns (nodes, entries, order) where order[root] = entry ids of that tree in b-tree order."""
+        nodes, entries, order = {}, [], {}
+        for root in roots:
+            n, e = self.tree(root)
+            off = len(entries)
+            for pg, node in n.items():
+                if "ents" in node:
+                    node["ents"] = [i + off for i in node["ents"]]
+                if pg in nodes and pg != root:
+                    raise ValueError("page %d shared between trees" % pg)
+                nodes[pg] = node
+            entries.extend(e)
+            order[root] = self._inorder(nodes, root)
+        return nodes, entries, order
+
+    def _inorder(self, nodes, p):
+        n = nodes[p]
+        if n["kind"] in ("tl", "il"):
+            return list(n["ents"])
+        out = []
+        for i, k in enumerate(n["kids"]):
+            out += self._inorder(nodes, k)
+            if n["kind"] == "ii":
+                out.append(n["ents"][i])
+        return out + self._inorder(nodes, n["right"])
+
     def depth(self, root):
         d, n = 1, root
         while True:
